@@ -63,7 +63,7 @@ var specTable = []propSpec{
 
 	// ---- proprietary (no specification; webrender's documented behaviour is the definition)
 	{Name: "-weasy-anchor", Prop: "anchor", Init: "none", Vals: v("attr(title)"), Note: "proprietary"},
-	{Name: "-weasy-link", Prop: "link", Inh: true, Init: "none", InitDefect: "link-none", Vals: v("url(http://example.org/a)", "attr(title)"), Note: "proprietary; inherited by design (links bubble)"},
+	{Name: "-weasy-link", Prop: "link", Inh: true, Init: "none", Vals: v("url(http://example.org/a)", "attr(title)"), Note: "proprietary; inherited by design (links bubble)"},
 	{Name: "-weasy-lang", Prop: "lang", Inh: true, Init: "none", Vals: v("\"fr\"", "attr(title)"), Note: "proprietary; language is inherited"},
 
 	// ---- CSS UI 4
@@ -183,7 +183,7 @@ var specTable = []propSpec{
 	{Name: "font-weight", Inh: true, Init: "normal", Vals: rel(v("bold", "300", "900"), "bolder", "lighter")},
 
 	// ---- Text 3 / 4
-	{Name: "hyphenate-character", Inh: true, Init: "auto", InitDefect: "hyphenate-character-auto", Vals: v("\"x\"", "\"=\"")},
+	{Name: "hyphenate-character", Inh: true, Init: "auto", Vals: v("\"x\"", "\"=\"")},
 	{Name: "hyphenate-limit-chars", Inh: true, Init: "auto", Vals: v("6", "6 3 3", "auto 3")},
 	{Name: "hyphenate-limit-zone", Inh: true, Init: "0", Vals: v("10px", "2em", "5%")},
 	{Name: "hyphens", Inh: true, Init: "manual", Vals: v("auto", "none")},
@@ -215,15 +215,15 @@ var specTable = []propSpec{
 	{Name: "block-ellipsis", Init: "none", Vals: v("auto", "\"…\"")},
 
 	// ---- Generated content for paged media, Content 3
-	{Name: "bookmark-label", Init: "content(text)", InitDefect: "bookmark-label-initial", Vals: v("\"x\"", "content(before)", "\"a\" attr(title)")},
+	{Name: "bookmark-label", Init: "content(text)", Vals: v("\"x\"", "content(before)", "\"a\" attr(title)")},
 	{Name: "bookmark-level", Init: "none", Vals: v("2", "1")},
 	{Name: "bookmark-state", Init: "open", Vals: v("closed")},
-	{Name: "string-set", Init: "none", InitDefect: "string-set-none", Vals: v("s \"x\"", "s content()", "a \"1\", b attr(title)")},
+	{Name: "string-set", Init: "none", Vals: v("s \"x\"", "s content()", "a \"1\", b attr(title)")},
 	{Name: "footnote-display", Init: "block", Vals: v("inline", "compact")},
 	{Name: "footnote-policy", Init: "auto", Vals: v("line", "block")},
 
 	// ---- Images 3 / 4
-	{Name: "image-orientation", Inh: true, NotInhDefect: "image-orientation-not-inherited", Init: "from-image", Vals: v("none", "90deg", "180deg flip"), Note: "CSS Images 3 §6.2: Inherited: yes"},
+	{Name: "image-orientation", Inh: true, Init: "from-image", Vals: v("none", "90deg", "180deg flip"), Note: "CSS Images 3 §6.2: Inherited: yes"},
 	{Name: "image-rendering", Inh: true, Init: "auto", Vals: v("pixelated", "crisp-edges")},
 	{Name: "image-resolution", Inh: true, Init: "1dppx", Vals: v("2dppx", "300dpi")},
 	{Name: "object-fit", Init: "fill", Vals: v("contain", "cover", "none")},
